@@ -37,4 +37,9 @@ CHECKS = {
         "note": "Trusted: z3, symx byte/CRC models (validated path-wise against the unshadowed import), the reference decoder and its documented oracle decisions (dangling ESC before FLAG is don't-care). Bounds: free streams <= 5 bytes whole / 4 bytes all partitions (quick), 6 / 5 (thorough); structured 2-3 segments.",
         "technique": SYMX,
     },
+    "C05": {
+        "text": "Real AshProtocol send path on a virtual-time loop with a scripted peer: start frame numbers, the peer's reaction to each DATA transmission (covering ACK, silence, NAK, ACK with a symbolic non-covering number, ERROR with a symbolic 8-bit code, piggy-backed acknowledgement), its instant relative to the acknowledgement timer and the RSTACK code are solver-decided; every feasible reaction schedule inside the bounds is one path and a wire-trace monitor written from the property text checks attempt budget, stable frame number/payload, reTx flag, repeat timing inside [0.4, 3.2] s, outcome vs. covering acknowledgement, exactly one upward notification per failure with its reason (symbolic code proved equal), silence until RSTACK, one outstanding frame, consecutive numbering and restart at zero. The float clamp is a CrossHair lemma over all doubles plus an enumerated replayable companion.",
+        "note": "Trusted: z3, asyncio on the virtual-time loop, CrossHair for the lemma. Frames are injected as objects (wire decoding is C02/C03). Bounds: 1-3 queued sends, free reactions for the first 5-7 DATA transmissions, at most 1-2 off-instant reactions and one stale ACK per run.",
+        "technique": SYMX + "; CrossHair (symbolic floats) for the timeout-clamp lemma",
+    },
 }
